@@ -1,0 +1,62 @@
+//go:build verif
+// +build verif
+
+// Verification-only access to the transaction pool (property C20 of /verif): synchronous reset, read access to the
+// virtual nonces, a deterministic lifetime-eviction pass.  Nothing in here is compiled into a normal build.
+
+package core
+
+import (
+	"time"
+
+	"github.com/youchainhq/go-youchain/common"
+	"github.com/youchainhq/go-youchain/core/types"
+)
+
+// VerifReset requests a reset from oldHead to newHead through the pool's own reorg loop and waits until it ran.
+func (pool *TxPool) VerifReset(oldHead, newHead *types.Header) {
+	<-pool.requestReset(oldHead, newHead)
+}
+
+// VerifSync waits for a reorg run that starts after this call (an empty promotion request), i.e. for quiescence of
+// everything requested before.
+func (pool *TxPool) VerifSync() {
+	<-pool.requestPromoteExecutables(newAccountSet(pool.signer))
+}
+
+// VerifPendingNonce reads pendingNonces under the pool lock.
+func (pool *TxPool) VerifPendingNonce(addr common.Address) uint64 {
+	pool.mu.RLock()
+	defer pool.mu.RUnlock()
+	return pool.pendingNonces.get(addr)
+}
+
+// VerifEvictPass makes every heartbeat older than the configured lifetime and then performs exactly what the eviction
+// tick of loop() performs (the body of `case <-evict.C`), under the pool lock.
+func (pool *TxPool) VerifEvictPass() {
+	pool.mu.Lock()
+	defer pool.mu.Unlock()
+	old := time.Now().Add(-2 * pool.config.Lifetime)
+	for addr := range pool.beats {
+		pool.beats[addr] = old
+	}
+	for addr := range pool.queue {
+		// Skip local transactions from the eviction mechanism
+		if pool.locals.contains(addr) {
+			continue
+		}
+		// Any non-locals old enough should be removed
+		if time.Since(pool.beats[addr]) > pool.config.Lifetime {
+			for _, tx := range pool.queue[addr].Flatten() {
+				pool.removeTx(tx.Hash(), true)
+			}
+		}
+	}
+}
+
+// VerifInternals reports the sizes of the internal indexes: the lookup table, the price heap without its stale entries.
+func (pool *TxPool) VerifInternals() (all int, priced int) {
+	pool.mu.RLock()
+	defer pool.mu.RUnlock()
+	return pool.all.Count(), pool.priced.items.Len() - pool.priced.stales
+}
